@@ -4,6 +4,7 @@ import (
 	"bytes"
 	"fmt"
 	"regexp"
+	"regexp/syntax"
 )
 
 type Matcher struct {
@@ -134,27 +135,23 @@ func (m *Matcher) MatchRegexAndExpand(key, template []byte) (string, bool) {
 // regexToPrefix inspects the regex and returns the longest static prefix part of the regex
 // all inputs for which the regex match, must have this prefix
 func regexToPrefix(regex string) []byte {
-	substr := ""
-	for i := 0; i < len(regex); i++ {
-		ch := regex[i]
-		if i == 0 {
-			if ch == '^' {
-				continue // good we need this
-			} else {
-				break // can't deduce any substring here
-			}
-		}
-		if (ch >= 'a' && ch <= 'z') || (ch >= 'A' && ch <= 'Z') || (ch >= '0' && ch <= '9') || ch == '_' || ch == '-' {
-			substr += string(ch)
-			// "\." means a dot character
-		} else if ch == 92 && i+1 < len(regex) && regex[i+1] == '.' {
-			substr += "."
-			i += 1
-		} else {
-			//fmt.Println("don't know what to do with", string(ch))
-			// anything more advanced should be regex syntax that is more permissive and hence not a static substring.
+	re, err := syntax.Parse(regex, syntax.Perl)
+	if err != nil {
+		return nil
+	}
+	// only a regex of the form ^literal... lets us deduce anything:
+	// the top level must be a concatenation that starts with the begin-of-text anchor.
+	// an alternation (^foo|bar) is not, and neither is anything unanchored.
+	if re.Op != syntax.OpConcat || len(re.Sub) == 0 || re.Sub[0].Op != syntax.OpBeginText {
+		return nil
+	}
+	var prefix []rune
+	for _, sub := range re.Sub[1:] {
+		// quantified, optional, grouped, case-folded, ... parts are not static: stop there
+		if sub.Op != syntax.OpLiteral || sub.Flags&syntax.FoldCase != 0 {
 			break
 		}
+		prefix = append(prefix, sub.Rune...)
 	}
-	return []byte(substr)
+	return []byte(string(prefix))
 }
